@@ -6,14 +6,11 @@ CONSTANTS
   Peers <- TwoPeers
   Ported <- TwoPeers
   TTL = 12
-  MaxTime = 14
+  MaxTime = 30
   Lossy = TRUE
   KeepLater = FALSE
-  DropUntil = 1000
+  DropUntil = 2
   Async <- NoPeers
 INVARIANT TypeOK
-INVARIANT RemoveSaysGoodbye
-INVARIANT GoodbyeHonoured
-INVARIANT NeverPartial
-INVARIANT NothingForeign
+INVARIANT RepairedAfterLoss
 CHECK_DEADLOCK FALSE
